@@ -200,6 +200,10 @@ func (d *Describer) Value(v any) Term {
 		return Term{"k": "lit", "t": fmt.Sprintf("%T", v), "v": fmt.Sprint(v)}
 	}
 	rv := reflect.ValueOf(v)
+	if rv.Kind() == reflect.Struct && rv.Type().ConvertibleTo(reflect.TypeOf(Obj{})) {
+		o := rv.Convert(reflect.TypeOf(Obj{})).Interface().(Obj)
+		return Term{"k": "objval", "body": d.body(&o)}
+	}
 	if rv.Kind() == reflect.Slice {
 		items := make([]any, rv.Len())
 		for i := range items {
